@@ -69,7 +69,9 @@ func Start() *Engine {
 			case w := <-e.addWatcher:
 				logrus.Info("Add watcher")
 				watchers[w.id] = w
-				w.update(ctx, global)
+				if !w.update(ctx, global) {
+					delete(watchers, w.id)
+				}
 			case id := <-e.removeWatcher:
 				logrus.Info("Remove watcher")
 				if w, has := watchers[id]; has {
@@ -89,7 +91,9 @@ func Start() *Engine {
 				global = global.With(Root, value)
 				for i, w := range watchers {
 					logrus.Infof("Update watcher %d", i)
-					w.update(ctx, global)
+					if !w.update(ctx, global) {
+						delete(watchers, i)
+					}
 				}
 			case <-e.stop:
 				logrus.Infof("Stop")
@@ -158,23 +162,28 @@ type watcher struct {
 	onclose  func(error)
 }
 
-func (w *watcher) update(ctx context.Context, global rel.Scope) {
+// update sends the watcher the value of its expression on the given state. It returns false when the watcher is
+// finished (its expression failed or its observer went away); the engine loop then drops it. It must not call
+// w.cancel: that sends to the engine's own mailbox, which only the calling goroutine serves.
+func (w *watcher) update(ctx context.Context, global rel.Scope) (alive bool) {
 	defer func() {
 		if err := recover(); err != nil {
 			w.onclose(errors.WrapPrefix(err, "update panic", 0))
+			alive = false
 		}
 	}()
 
 	value, err := w.expr.Eval(ctx, global)
 	if err != nil {
-		w.cancel()
 		w.onclose(err)
-		return
+		return false
 	}
 
 	if err = w.onupdate(value); err != nil {
-		w.cancel()
+		w.close()
+		return false
 	}
+	return true
 }
 
 func (w *watcher) close() {
